@@ -201,12 +201,22 @@ def require_tlc_ok(res, what):
 
 # --------------------------------------------------------------------------- Go
 def go_build(pkg, out_name=None, tags="verif", race=False):
-    """Build harness package (path relative to harness/) against /repo's working tree."""
-    bindir = os.path.join(ROOT, ".bin")
+    """Build harness package (path relative to harness/) against the repository working
+    tree (REPO, default /repo; VERIF_REPO=<scratch copy> lets mutants be tested without
+    touching /repo: an alternate go.mod with the replace directive rewritten is used)."""
+    alt = REPO.rstrip("/") != "/repo"
+    bindir = os.path.join(ROOT, ".bin") if not alt else os.path.join(
+        ROOT, ".bin-" + hashlib.sha1(REPO.encode()).hexdigest()[:8])
     os.makedirs(bindir, exist_ok=True)
     out = os.path.join(bindir, out_name or os.path.basename(pkg.rstrip("/")))
     sync_gosum()
     cmd = ["go", "build", "-tags", tags, "-o", out]
+    if alt:
+        modfile = os.path.join(bindir, "go.mod")
+        txt = open(os.path.join(HARNESS, "go.mod")).read().replace("=> /repo", "=> " + REPO.rstrip("/"))
+        open(modfile, "w").write(txt)
+        shutil.copy(os.path.join(REPO, "go.sum"), os.path.join(bindir, "go.sum"))
+        cmd.insert(2, "-modfile=" + modfile)
     if race:
         cmd.insert(2, "-race")
     cmd.append("./" + pkg)
@@ -242,14 +252,15 @@ def run(cmd, timeout=600, cwd=None, env=None, input=None):
 
 # --------------------------------------------------------------------------- findings
 def load_known():
-    path = os.path.join(ROOT, "known_findings.jsonl")
+    paths = [os.path.join(ROOT, "known_findings.jsonl")] + sorted(glob.glob(os.path.join(ROOT, "known_findings.d", "*.jsonl")))
     out = []
-    if os.path.exists(path):
-        for line in open(path):
-            line = line.strip()
-            if not line or line.startswith("#"):
-                continue
-            out.append(json.loads(line))
+    for path in paths:
+        if os.path.exists(path):
+            for line in open(path):
+                line = line.strip()
+                if not line or line.startswith("#"):
+                    continue
+                out.append(json.loads(line))
     return out
 
 
